@@ -30,3 +30,201 @@ def find_module(pkg, name):
         if m.name == name or m.name.split(".")[-1] == name:
             return m
     raise KeyError(name)
+
+
+# --------------------------------------------------------------------------- package -> JSON for the Lean driver
+
+from decimal import Decimal
+from fractions import Fraction
+
+
+def canon_param(pv):
+    """Canonical text of a vlsir.ParamValue (exact)."""
+    import vlsir
+
+    which = pv.WhichOneof("value")
+    if which == "literal":
+        return "L:" + pv.literal
+    if which == "string_value":
+        return "S:" + pv.string_value
+    if which == "int64_value":
+        return "I:" + str(pv.int64_value)
+    if which == "double_value":
+        return "F:" + float(pv.double_value).hex()
+    if which == "prefixed":
+        names = {v.number: n for n, v in vlsir.SIPrefix.DESCRIPTOR.values_by_name.items()}
+        from hdl21.prefix import Prefix
+
+        pre = Prefix[names[pv.prefixed.prefix]].value
+        w = pv.prefixed.WhichOneof("number")
+        num = Fraction(pv.prefixed.int64_value) if w == "int64_value" else (
+            Fraction(Decimal(pv.prefixed.string_value)) if w == "string_value" else Fraction(pv.prefixed.double_value))
+        return "P:" + str(num * Fraction(10) ** pre)
+    return "?:" + str(which)
+
+
+def target_json(t):
+    kind = t.WhichOneof("stype")
+    if kind == "sig":
+        return {"sig": t.sig}
+    if kind == "slice":
+        return {"slice": [t.slice.signal, t.slice.top, t.slice.bot]}
+    if kind == "concat":
+        return {"concat": [target_json(p) for p in t.concat.parts]}
+    raise ValueError(f"unset connection target {t}")
+
+
+def dir_name(d):
+    import vlsir.circuit_pb2 as vckt
+
+    return {vckt.Port.Direction.INPUT: "input", vckt.Port.Direction.OUTPUT: "output",
+            vckt.Port.Direction.INOUT: "inout", vckt.Port.Direction.NONE: "none"}[d]
+
+
+def pkg_json(pkg):
+    mods = []
+    for m in pkg.modules:
+        insts = []
+        for i in m.instances:
+            to = i.module.WhichOneof("to")
+            ref = {"local": i.module.local} if to == "local" else {"ext": [i.module.external.domain, i.module.external.name]}
+            insts.append({"n": i.name, "ref": ref, "params": [[p.name, canon_param(p.value)] for p in i.parameters],
+                          "conns": [[c.portname, target_json(c.target)] for c in i.connections]})
+        mods.append({"name": m.name, "signals": [{"n": s.name, "w": s.width} for s in m.signals],
+                     "ports": [{"n": p.signal, "dir": dir_name(p.direction)} for p in m.ports], "instances": insts})
+    exts = [{"domain": e.name.domain, "name": e.name.name, "signals": [{"n": s.name, "w": s.width} for s in e.signals],
+             "ports": [{"n": p.signal, "dir": dir_name(p.direction)} for p in e.ports]} for e in pkg.ext_modules]
+    return {"modules": mods, "ext_modules": exts}
+
+
+# --------------------------------------------------------------------------- second reading: the spice text itself
+
+
+_VLSIR_IDEAL = {"vdc": "DcVoltageSource", "vpulse": "PulseVoltageSource", "vsin": "SineVoltageSource", "isource": "CurrentSource",
+                "resistor": "IdealResistor", "capacitor": "IdealCapacitor", "inductor": "IdealInductor", "vcvs": "VoltageControlledVoltageSource",
+                "vccs": "VoltageControlledCurrentSource", "ccvs": "CurrentControlledVoltageSource", "cccs": "CurrentControlledCurrentSource"}
+
+
+def primitive_ports(domain, name):
+    """Port order of a primitive as the netlisters write it (vlsirtools' own primitive definitions = hdl21's port lists)."""
+    import importlib
+
+    prims = importlib.import_module("hdl21.primitives")
+    pname = _VLSIR_IDEAL[name] if domain == "vlsir.primitives" else name
+    return [p.name for p in getattr(prims, pname).port_list]
+
+
+def parse_spice(text):
+    """{subckt: {"ports": [node...], "insts": [{"name", "nodes": [...], "target": str}]}} from vlsirtools' spice output."""
+    subckts, cur, lines = {}, None, [l.rstrip() for l in text.splitlines()]
+    k = 0
+    while k < len(lines):
+        l = lines[k]
+        if l.startswith(".SUBCKT"):
+            name = l.split()[1]
+            cur = {"ports": [], "insts": []}
+            subckts[name] = cur
+            k += 1
+            while k < len(lines) and lines[k].startswith("+"):
+                cur["ports"] += lines[k][1:].split()
+                k += 1
+            continue
+        if l.startswith(".ENDS"):
+            cur = None
+        elif cur is not None and l and not l.startswith(("*", "+", ".")):
+            head = l.split()[0]
+            plus = []
+            k += 1
+            while k < len(lines) and lines[k].startswith("+"):
+                plus.append(lines[k][1:].split())
+                k += 1
+            nodes = plus[0] if plus else []
+            if nodes[:1] == ["*"]:
+                nodes = []  # "+ * No ports"
+            target = plus[1][0] if len(plus) > 1 and plus[1] else ""
+            cur["insts"].append({"prefix": head[0], "name": head[1:], "nodes": nodes, "target": target})
+            continue
+        k += 1
+    return subckts
+
+
+def spice_partition(text, pj, top):
+    """Partition of observable bits read from the netlist text alone (node positions), using the package only for
+    port order/widths of modules and external modules (to name the bits). Independent of observe.target_bits / Lean."""
+    sub = parse_spice(text)
+    mods = {m["name"].split(".")[-1].replace("(", "_").replace(")", "_"): m for m in pj["modules"]}
+    by_short = {m["name"]: m for m in pj["modules"]}
+    exts = {e["name"]: e for e in pj["ext_modules"]}
+
+    def bits_msb_first(ports, signals):
+        w = {s["n"]: s["w"] for s in signals}
+        out = []
+        for p in ports:
+            out += [(p["n"], i) for i in reversed(range(w[p["n"]]))]
+        return out
+
+    def solve(mname):
+        """-> list of nets, each {"ports": set((port,i)), "terms": set((path, port, i))} for subckt `mname`."""
+        m = mods[mname]
+        sc = sub[mname]
+        parent = {}
+
+        def find(x):
+            parent.setdefault(x, x)
+            while parent[x] != x:
+                parent[x] = parent[parent[x]]
+                x = parent[x]
+            return x
+
+        def union(a, b):
+            parent[find(a)] = find(b)
+
+        terms, portnodes = [], []
+        for node, pb in zip(sc["ports"], bits_msb_first(m["ports"], m["signals"])):
+            find(node)
+            portnodes.append((pb, node))
+        inst_by_name = {i["n"]: i for i in m["instances"]}
+        floating = []
+        for si in sc["insts"]:
+            pi = inst_by_name[si["name"]]
+            if "local" in pi["ref"]:
+                child = pi["ref"]["local"].split(".")[-1].replace("(", "_").replace(")", "_")
+                cm = mods[child]
+                cbits = bits_msb_first(cm["ports"], cm["signals"])
+                assert len(cbits) == len(si["nodes"]), (mname, si, cbits)
+                node_of = dict(zip(cbits, si["nodes"]))
+                for net in solve(child):
+                    nodes = [node_of[pb] for pb in net["ports"]]
+                    ts = {((si["name"],) + t[0], t[1], t[2]) for t in net["terms"]}
+                    if nodes:
+                        for n in nodes:
+                            find(n)
+                        for n in nodes[1:]:
+                            union(nodes[0], n)
+                        terms += [(t, nodes[0]) for t in ts]
+                    elif ts:
+                        floating.append(ts)
+            else:
+                dom, nm = pi["ref"]["ext"]
+                if nm in exts and exts[nm]["domain"] == dom:
+                    lbits = bits_msb_first(exts[nm]["ports"], exts[nm]["signals"])
+                else:
+                    lbits = [(pn, 0) for pn in primitive_ports(dom, nm)]  # primitives: scalar ports, in the primitive's order
+                assert len(lbits) == len(si["nodes"]), (mname, si, lbits)
+                for (port, i), node in zip(lbits, si["nodes"]):
+                    find(node)
+                    terms.append((((si["name"],), port, i), node))
+        nets = {}
+        for pb, node in portnodes:
+            nets.setdefault(find(node), {"ports": set(), "terms": set()})["ports"].add(pb)
+        for t, node in terms:
+            nets.setdefault(find(node), {"ports": set(), "terms": set()})["terms"].add(t)
+        return list(nets.values()) + [{"ports": set(), "terms": ts} for ts in floating]
+
+    topname = top.split(".")[-1].replace("(", "_").replace(")", "_")
+    classes = []
+    for net in solve(topname):
+        c = sorted([f"{p}[{i}]" for p, i in net["ports"]] + ["/".join(t[0]) + f":{t[1]}[{t[2]}]" for t in net["terms"]])
+        if c:
+            classes.append(c)
+    return sorted(classes, key=lambda c: c[0])
